@@ -588,56 +588,134 @@ def rule_t3(ctx, rels):
     return n_sites
 
 
-def rule_lk1(ctx, rels):
+def rule_lk1(ctx, rels, scope=None):
     r = ctx.r
-    r.rule("LK1", "a buffer created by utils.zeros / utils.ones with "
-                  "`like=L` takes L's dtype; if computed values (a call or "
-                  "a division) are item-assigned into it, the factory must "
-                  "be told integer_type=False, otherwise integer-typed L "
-                  "truncates them silently; values that are L itself, a "
-                  "factory result `like=L`, or a literal are fine")
+    r.rule("LK1", "a buffer created by utils.zeros / ones / identity takes "
+                  "the dtype of its `like=` value (or of a dtype obtained "
+                  "from check_type(**kwargs)); if computed values (a call "
+                  "or a division) are written into it (item assignment or "
+                  "augmented item assignment), the factory / check_type "
+                  "must be told integer_type=False or be given a literal "
+                  "inexact dtype, otherwise integer-typed input (a Python "
+                  "int angle, an integer matrix) truncates them silently; "
+                  "values that are the `like` value itself, a factory "
+                  "result typed like it, or a literal are fine")
     n_sites = 0
     for rel in rels:
         m = ctx.p.module_by_rel(rel)
         for f in ctx.p.all_functions:
             if f.module is not m:
                 continue
+            if scope is not None and f not in scope:
+                continue
             bufs = {}
             likedefs = set()
+            # dtypes obtained from check_type without integer_type=False
+            loose_dtypes = set()
+            for n in ast.walk(f.node):
+                if isinstance(n, ast.Assign) and isinstance(n.value, ast.Call) \
+                        and dotted(n.value.func).endswith("check_type") \
+                        and isinstance(n.targets[0], ast.Tuple) \
+                        and len(n.targets[0].elts) == 2:
+                    kw = {k.arg: k.value for k in n.value.keywords if k.arg}
+                    it = kw.get("integer_type")
+                    strict = isinstance(it, ast.Constant) \
+                        and it.value is False
+                    # integer_type=kwargs.pop("integer_type", False)
+                    if isinstance(it, ast.Call) and isinstance(
+                            it.func, ast.Attribute) \
+                            and it.func.attr in ("pop", "get") \
+                            and len(it.args) == 2 \
+                            and isinstance(it.args[1], ast.Constant) \
+                            and it.args[1].value is False:
+                        strict = True
+                    if not strict:
+                        loose_dtypes.add(dotted(n.targets[0].elts[1]))
             for n in ast.walk(f.node):
                 if isinstance(n, ast.Assign) and len(n.targets) == 1 \
                         and isinstance(n.targets[0], ast.Name) \
                         and isinstance(n.value, ast.Call):
                     fn = dotted(n.value.func)
                     kw = {k.arg: k.value for k in n.value.keywords if k.arg}
-                    if fn in FACTORIES and "like" in kw:
+                    if fn in FACTORIES:
                         it = kw.get("integer_type")
                         exact_ok = isinstance(it, ast.Constant) \
                             and it.value is False
-                        if fn.split(".")[-1] in ("zeros", "ones"):
-                            bufs[n.targets[0].id] = (n, dotted(kw["like"]),
-                                                     exact_ok, "dtype" in kw)
+                        dt = kw.get("dtype")
+                        pos = list(n.value.args)
+                        if dt is None and len(pos) >= 3:
+                            dt = pos[2]      # (shape, base_ring, dtype)
+                        lit_dtype = dt is not None and (
+                            (isinstance(dt, ast.Constant)
+                             and isinstance(dt.value, str)
+                             and ("float" in dt.value
+                                  or "complex" in dt.value))
+                            or dotted(dt) in ("float", "complex",
+                                              "np.float64", "np.complex128"))
+                        src = None
+                        if "like" in kw:
+                            src = dotted(kw["like"])
+                        elif dt is not None and dotted(dt) in loose_dtypes:
+                            src = f"<{dotted(dt)} from check_type>"
+                        if src is not None:
+                            bufs[n.targets[0].id] = (n, src, exact_ok,
+                                                     lit_dtype)
+                    if fn in ("np.empty_like", "np.zeros_like",
+                              "np.ones_like", "np.full_like") \
+                            and n.value.args and "dtype" not in kw:
+                        a0 = n.value.args[0]
+                        # only caller-typed sources: a parameter or the
+                        # object's own data (a computed local such as a
+                        # norm is already inexact)
+                        if (isinstance(a0, ast.Name) and a0.id in f.params) \
+                                or (isinstance(a0, ast.Attribute)
+                                    and dotted(a0).startswith("self.")):
+                            bufs[n.targets[0].id] = (n, dotted(a0), False,
+                                                     False)
+                    if fn in ("np.empty", "np.zeros", "np.ones", "np.full") \
+                            and "dtype" in kw and dotted(kw["dtype"]).endswith(
+                                ("dtype", "_dtype")):
+                        bufs[n.targets[0].id] = (n, dotted(kw["dtype"]),
+                                                 False, False)
                     if fn.startswith("utils.") and "like" in kw:
                         likedefs.add((n.targets[0].id, dotted(kw["like"])))
             for n in ast.walk(f.node):
-                if not isinstance(n, ast.Assign):
+                if isinstance(n, ast.Assign):
+                    tgts, v = n.targets, n.value
+                elif isinstance(n, ast.AugAssign):
+                    tgts, v = [n.target], n.value
+                else:
                     continue
-                for t in n.targets:
+                for t in tgts:
                     if not (isinstance(t, ast.Subscript)
                             and isinstance(t.value, ast.Name)
                             and t.value.id in bufs):
                         continue
-                    d, like, exact_ok, has_dtype = bufs[t.value.id]
-                    v = n.value
+                    d, like, exact_ok, lit_dtype = bufs[t.value.id]
                     safe = isinstance(v, ast.Constant) or dotted(v) == like \
                         or (isinstance(v, ast.Name)
                             and (v.id, like) in likedefs)
                     if isinstance(v, ast.UnaryOp) and isinstance(
                             v.operand, ast.Constant):
                         safe = True
-                    if isinstance(v, ast.Call) and any(
+                    core_v = v.operand if isinstance(v, ast.UnaryOp) else v
+                    if isinstance(core_v, ast.Call) and dotted(
+                            core_v.func) in (
+                            "utils.real", "utils.imag", "np.real", "np.imag",
+                            "np.conjugate", "utils.conjugate") \
+                            and core_v.args \
+                            and dotted(core_v.args[0]) == like:
+                        safe = True      # a part of the `like` value itself
+                    if isinstance(v, ast.Call) and dotted(v.func) in (
+                            "utils.number", "utils.zeros", "utils.ones",
+                            "utils.identity", "number", "zeros", "ones",
+                            "identity") and any(
                             k.arg == "like" and dotted(k.value) == like
-                            for k in v.keywords):
+                            for k in v.keywords) and not any(
+                            isinstance(x, ast.Call) and dotted(x.func) in (
+                                "np.cos", "np.sin", "utils.cos", "utils.sin",
+                                "cos", "sin", "np.sqrt", "np.exp")
+                            for a in v.args for x in ast.walk(a)):
                         safe = True          # typed like the same source
                     if isinstance(v, ast.Name) and any(
                             isinstance(x, ast.Assign)
@@ -648,16 +726,21 @@ def rule_lk1(ctx, rels):
                                     dotted(x.value.orelse))))
                             for x in ast.walk(f.node)):
                         safe = True          # `like = v` (default source)
+                    if isinstance(v, ast.Name) and v.id in f.params \
+                            and isinstance(n, ast.Assign):
+                        # a block of caller data copied into the buffer:
+                        # same provenance as `like` in these constructors
+                        safe = True
                     computed = any(isinstance(x, ast.Call) or (
                         isinstance(x, ast.BinOp)
-                        and isinstance(x.op, ast.Div)) for x in ast.walk(v)) \
-                        or isinstance(v, ast.Name)
+                        and isinstance(x.op, (ast.Div, ast.Pow, ast.Mult)))
+                        for x in ast.walk(v)) or isinstance(v, ast.Name)
                     if safe or not computed:
                         continue
                     n_sites += 1
                     r.analysed(f)
                     inst = f"{f.qualname}:{t.value.id}"
-                    if exact_ok or has_dtype:
+                    if exact_ok or lit_dtype:
                         r.ok("LK1", inst, loc(f, n), norm_stmt(n)[:100],
                              "the buffer is created inexact")
                     else:
@@ -666,9 +749,9 @@ def rule_lk1(ctx, rels):
                             norm_stmt(d)[:140],
                             f"`{t.value.id}` takes the dtype of `{like}` and "
                             f"then receives `{dotted(v)[:50]}`: for "
-                            "integer-typed data the computed values are "
-                            "truncated silently (e.g. TangentVector(int "
-                            "array).point_along(0.5) returns the basepoint)",
+                            "integer-typed input the computed values are "
+                            "truncated silently (or the in-place update "
+                            "raises UFuncTypeError)",
                             instance=inst)
     return n_sites
 
